@@ -300,6 +300,8 @@ def run_base_capa(
     # Used to get the final set of anomalies after the loop.
     opt_anomaly_starts = np.repeat(np.nan, n)
     starts = np.array([], dtype=int)
+    # Starts found prunable in each of the last `min_segment_length - 1` iterations.
+    pending_pruned_starts = []
     min_segment_shift = min_segment_length - 1
 
     ts = np.arange(n)
@@ -341,11 +343,18 @@ def run_base_capa(
 
         # Pruning the admissible starts
         if collective_possible:
+            # A start pruned against `opt_savings[t + 1]` is only beaten by an anomaly
+            # starting at `t + 1`, which is admissible for ends at least
+            # `min_segment_length` later. This pruning is therefore applied with a
+            # delay of `min_segment_shift` iterations.
             penalty_sum = collective_alpha + collective_betas.sum()
             saving_too_low = candidate_savings + penalty_sum < opt_savings[t + 1]
+            pending_pruned_starts.append(starts[saving_too_low])
+            if len(pending_pruned_starts) > min_segment_shift:
+                pruned_starts = pending_pruned_starts.pop(0)
+                starts = starts[~np.isin(starts, pruned_starts)]
             too_long_segment = starts < t - max_segment_length + 2
-            prune = saving_too_low | too_long_segment
-            starts = starts[~prune]
+            starts = starts[~too_long_segment]
 
     collective_anomalies, point_anomalies = get_anomalies(opt_anomaly_starts)
     return opt_savings[1:], collective_anomalies, point_anomalies
